@@ -10,7 +10,7 @@ def step(rnd, pool, shadow, log):
     names = list(pool)
     a = rnd.choice(names)
     op = rnd.choice(['slice', 'slice', 'empty-slice', 'add', 'add', 'setitem', 'setitem-empty', 'pad-inplace', 'pad-copy', 'shift-inplace', 'shift-copy',
-                     'copy', 'hash-lookup', 'eq', 'iter-zip', 'iter-nested', 'value', 'bitwise', 'invert', 'chunks', 'new'])
+                     'copy', 'hash-lookup', 'eq', 'iter-zip', 'iter-nested', 'value', 'bitwise', 'invert', 'chunks', 'new', 'observe-mutate-observe', 'observe-mutate-observe'])
     A, sa = pool[a], shadow[a]
     n = len(sa)
     new = 'v%d' % len(log)
@@ -73,6 +73,51 @@ def step(rnd, pool, shadow, log):
         elif op == 'value':
             if A.value() != int(sa or '0', 2):
                 return 'value() of %r is %r' % (sa, A.value())
+        elif op == 'observe-mutate-observe':
+            # an observer is called, the buffer is changed in place (possibly back to the same length), the observer is called again:
+            # nothing remembered from the first call may show in the second
+            obs = rnd.choice(['value', 'hash', 'iter', 'chunks', 'json', 'eq'])
+
+            def observe(buf, bits):
+                if obs == 'value':
+                    return buf.value() == int(bits or '0', 2)
+                if obs == 'hash':
+                    return hash(buf) == hash(mk(bits, rnd.choice([L, R])))
+                if obs == 'iter':
+                    return ''.join(str(x) for x in buf) == bits
+                if obs == 'chunks':
+                    return (not bits) or ''.join(bits_of(c) for c in buf.chunks(5)) == bits
+                if obs == 'json':
+                    return bits_of(Buffer.from_json(buf.json())) == bits
+                return buf == mk(bits, rnd.choice([L, R]))
+            if not observe(A, sa):
+                return '%s() of %r is wrong' % (obs, sa)
+            cur = sa
+            muts = []
+            for _ in range(rnd.randint(1, 3)):
+                m = rnd.choice(['shift', 'shift-back', 'pad', 'setitem'])
+                if m == 'shift':
+                    k = rnd.randint(-9, 9)
+                    A.shift(k, inplace=True)
+                    cur = cur + '0' * (-k) if k < 0 else cur[:max(0, len(cur) - k)]
+                elif m == 'shift-back':
+                    k = rnd.randint(1, 9)
+                    A.shift(k, inplace=True)
+                    cur = cur[:max(0, len(cur) - k)]
+                    A.shift(-k, inplace=True)
+                    cur = cur + '0' * k
+                elif m == 'pad':
+                    A.pad(rnd.choice([L, R]), inplace=True)
+                elif len(cur) > 0:
+                    i_ = rnd.randrange(len(cur))
+                    j_ = rnd.randint(i_, len(cur))
+                    w = randbits(rnd, j_ - i_)
+                    A[i_:j_] = mk(w, rnd.choice([L, R]))
+                    cur = cur[:i_] + w + cur[j_:]
+                muts.append(m)
+            shadow[a] = cur
+            if not observe(A, cur):
+                return '%s() after in-place %s of %r (now %r) still answers for the old contents' % (obs, '+'.join(muts), sa, cur)
         elif op == 'bitwise':
             other = mk(randbits(rnd, n), rnd.choice([L, R]))
             pool[new], shadow[new] = A ^ other, ''.join('1' if x != y else '0' for x, y in zip(sa, bits_of(other)))
